@@ -64,6 +64,10 @@ CLAIMED["C10"] = dict(technique="robustness fuzzing with a crash oracle: rapid-g
 CLAIMED["C05"] = dict(technique="differential testing against go/types: rapid-generated interface / implementation programs from a signature grammar; expected IMPL01/02/03 and the list of missing methods computed with the type checker's own method sets and types.Identical",
     text="Three-package programs (interface package with a possibly different declared name, imported plainly or under an alias; helper types and aliases; implementing package) are generated from a grammar of 29 parameter/result types incl. predeclared and declared aliases, pointer depths 1-3, composites, funcs, chans and variadics; each interface method is absent, identical in another spelling, minimally different, or promoted through embedded E / *E / interface, with value or pointer receivers and every qualifier / interface-name shape. The tool's verdict and its 'missing methods' list must equal what go/types says for the same program.",
     note="oracle = the harness's own go/types pass over the generated program (method sets, types.Identical, cross-checked with types.Implements); unspecified shapes (qualifier equal to the declared name or last path element of an import bound under another name) are counted, not judged; generic and annotated interface types, unexported interface methods are not generated", ref="DESIGN.md section 3, C05")
+
+CLAIMED["C15"] = dict(technique="exhaustive bounded enumeration of comment strings + rapid structured/unstructured strings against a hand-written reference recogniser of the documented grammar, plus rapid attachment-site programs; observed through the public readers on really parsed files",
+    text="Every comment text '//' + up to 4 (quick) / 6 (thorough) tokens of a 25-token alphabet is parsed by go/parser as doc comment of a type, a function, a method and a field of an @immutable struct and read by annotations.ReadAllAnnotations and ignore.ReadIgnoreAnnotations; kind, &, qualifier, name, item lists (declaring package first, codes upper-cased) must equal the result of a recursive-descent reference recogniser. Rapid adds longer structured and unstructured strings, and programs in which well-formed annotations sit at every inert attachment site.",
+    note="the reference recogniser encodes the documented grammar with longest-list-then-whitespace semantics; strings the statement leaves open (non-ASCII identifiers, digit-leading names, malformed first word after @packageonly, form feed / vertical tab / NBSP as whitespace, group doc comments) are counted and not judged", ref="DESIGN.md section 3, C15")
 ALL = ["C%02d" % i for i in range(1, 20)]
 NA_REASON = {}
 def main():
